@@ -87,6 +87,8 @@ impl Check for C12 {
             let mut next_id = base;
             let mut frags_seen: HashMap<u32, HashSet<u16>> = HashMap::new();
             let mut last_count: HashMap<u32, u16> = HashMap::new();
+            // step epoch in which each (packet, fragment) was transmitted for the first time
+            let mut first_epoch: HashMap<(u32, u16), u32> = HashMap::new();
             for (_, ev) in evs.iter() {
                 match ev {
                     Ev::Data { frame_id, epoch, dgs, .. } => {
@@ -105,6 +107,9 @@ impl Check for C12 {
                             }
                             let c = count.entry((*pkt, *frag)).or_insert(0);
                             *c += 1;
+                            if *c == 1 {
+                                first_epoch.insert((*pkt, *frag), *epoch);
+                            }
                             if *c > 1 && sub.mode <= 1 {
                                 return CaseResult::fail(
                                     format!("oracle:c12:unreliable_fragment_sent_twice:mode{}", sub.mode),
@@ -117,7 +122,22 @@ impl Check for C12 {
                                     // (per-fragment) queue during its own epoch while the sender was blocked?
                                     // (the first snapshot after the next step() shows the queues as the submission epoch left them)
                                     let pulled = trace.stats[s].iter().find(|st| st.epoch == sub.epoch + 1 && st.seq > sub.seq).map_or(false, |st| st.v.pending_queue_len > 0);
-                                    let key = if pulled { "oracle:c12:time_sensitive_sent_late:queued_per_fragment_while_blocked" } else { "oracle:c12:time_sensitive_sent_late:never_queued_in_its_epoch" };
+                                    // The recorded finding concerns a packet that was moved into the per-fragment queue while
+                                    // that queue was EMPTY (packets are only moved there one at a time): every fragment of
+                                    // every earlier packet had been transmitted (or abandoned) by then, i.e. within the
+                                    // submission epoch. A late TimeSensitive packet that waited BEHIND fragments of earlier
+                                    // packets which were themselves first transmitted after that epoch is something else.
+                                    let behind_unsent = first_epoch.iter().any(|((q, _), ep)| {
+                                        let d = pkt.wrapping_sub(*q) & PKT_MASK;
+                                        d >= 1 && d <= 4096 && *ep > sub.epoch
+                                    });
+                                    let key = if pulled && behind_unsent {
+                                        "oracle:c12:time_sensitive_sent_late:queued_behind_unsent_fragments"
+                                    } else if pulled {
+                                        "oracle:c12:time_sensitive_sent_late:queued_per_fragment_while_blocked"
+                                    } else {
+                                        "oracle:c12:time_sensitive_sent_late:never_queued_in_its_epoch"
+                                    };
                                     if !tolerate_known(key) {
                                         return CaseResult::fail(
                                             key,
